@@ -10,6 +10,9 @@ verus! {
 /// ghost: the full 32 KiB blocks that remain to be read from an open file, from its current position
 pub uninterp spec fn file_rest(f: &std::fs::File) -> Seq<Seq<u8>>;
 
+/// ghost: the byte offset of an open file's cursor
+pub uninterp spec fn file_pos(f: &std::fs::File) -> int;
+
 /// ghost: the full 32 KiB blocks of WAL file number `n` of the directory `dir`
 pub uninterp spec fn dir_file_blocks(dir: std::path::PathBuf, n: u64) -> Seq<Seq<u8>>;
 
